@@ -391,8 +391,10 @@ def main():
 
     all_popper_classes = sorted(poppers)
 
+    max_inner_c = min(max_inner, 3)    # every popper class at every position: 3 deep is ~60k paths
+
     def runc(ctx):
-        n_inner = ctx.choose([True] * (max_inner + 1))
+        n_inner = ctx.choose([True] * (max_inner_c + 1))
         inner, inner_kinds = [], []
         for i in range(n_inner):
             c = ctx.choose([True] * (1 + len(all_popper_classes)))
@@ -414,7 +416,7 @@ def main():
         return {"I": I, "r": r, "blocks": nblocks(frame), "exprs": list(frame.fields["exprs_to_eval"].items),
                 "next": len(frame.fields["bindings_next_block"].items), "inner_kinds": inner_kinds}
     try:
-        resc = explore(runc, max_paths=20000)
+        resc = explore(runc, max_paths=120000)
     except (Unsupported, UnwindExceeded) as ex:
         resc = []
         C.inconclusive.append(f"Return arm not encodable: {ex}")
